@@ -27,7 +27,7 @@ def budget(tier):
 
 def floor(tier):
     return dict(min_conclusive=40 if tier == "quick" else 700, min_nontrivial=30 if tier == "quick" else 150,
-                classes=["formula", "continuity", "reject", "regrid", "F2", "FL", "F3", "g1", "APFEL", "approx", "exact"], min_compared=2000)  # fmt: skip
+                classes=["formula", "continuity", "reject", "regrid", "twice", "F2", "FL", "F3", "g1", "APFEL", "approx", "exact"], min_compared=2000)  # fmt: skip
 
 
 def cases(tier, rng):
@@ -47,7 +47,7 @@ def cases(tier, rng):
         pts = cards.rand_points(rng, g["xgrid"], n=2, q2lo=2.0, q2hi=300.0, xmax=0.85)
         for p in pts:
             p["x"] = float(max(p["x"], min(0.45, g["xgrid"][1] * 2.5)))
-        out.append(dict(id=f"c10-{i}", mon=mon, kind=kind, heavy=heavy, grid=g, points=pts, regrid=bool(mon == "formula" and i % 3 == 0), **cfg))
+        out.append(dict(id=f"c10-{i}", mon=mon, kind=kind, heavy=heavy, grid=g, points=pts, regrid=bool(mon == "formula" and i % 3 == 0), twice=bool(mon == "formula" and i % 3 == 1), **cfg))
     return out
 
 
@@ -247,7 +247,17 @@ def run_case(case):
                 run.run(th, cards.observables({name: pts}, xgrid=xg_, deg=deg_, is_log=g["is_log"], **case["obs"]))
             except ValueError:
                 pass
-    out = run.run(th, mkobs({name: pts}))
+    if case.get("twice"):
+        # the published formula must also hold for the second evaluation of the same element: the same point listed twice and the
+        # results asked twice from one runner (state kept on the TMC objects between evaluations)
+        classes.add("twice")
+        rn = yad.Runner(th, mkobs({name: pts + [dict(pts[0])]}))
+        rn.get_result()
+        out = rn.get_result()
+        out[name] = out[name][1:] + out[name][:1] if False else out[name]
+        pts = pts + [dict(pts[0])]
+    else:
+        out = run.run(th, mkobs({name: pts}))
     for p, res in zip(pts, out[name]):
         mu, r, xi = tmc_vars(p["x"], p["Q2"], M)
         need = {xi} | {nodes[j] for j, bf in enumerate(interp) if not bf.is_below_x(xi)}
